@@ -520,6 +520,13 @@ def bool_atoms(e: ast.AST) -> list[str]:
         return bool_atoms(e.operand)
     if isinstance(e, ast.Call) and dotted(e.func) == "bool" and len(e.args) == 1:
         return bool_atoms(e.args[0])
+    if isinstance(e, ast.IfExp):
+        out = []
+        for part in (e.test, e.body, e.orelse):
+            for a in bool_atoms(part):
+                if a not in out:
+                    out.append(a)
+        return out
     return [_atom(e)[0]]
 
 
@@ -545,6 +552,12 @@ def bool_eval(e: ast.AST, env: dict[str, bool]) -> bool | None:
         return bool_eval(e.args[0], env)
     if isinstance(e, ast.Constant) and isinstance(e.value, bool):
         return e.value
+    if isinstance(e, ast.IfExp):
+        c = bool_eval(e.test, env)
+        if c is None:
+            x, y = bool_eval(e.body, env), bool_eval(e.orelse, env)
+            return x if x is not None and x == y else None
+        return bool_eval(e.body if c else e.orelse, env)
     if isinstance(e, ast.Compare) and len(e.ops) == 1 and isinstance(e.ops[0], (ast.Eq, ast.NotEq, ast.Is, ast.IsNot)) and not (isinstance(e.comparators[0], ast.Constant) and e.comparators[0].value is None):
         l_, r_ = bool_eval(e.left, env), bool_eval(e.comparators[0], env)
         if l_ is not None and r_ is not None:
@@ -819,3 +832,86 @@ def param_mutated_in_closure(ctx, fn: FuncInfo, param: str, depth: int = 4, _see
                 if isinstance(a, ast.Name) and a.id == param:
                     out += param_mutated_in_closure(ctx, c, p, depth - 1, _seen)
     return out
+
+
+def dependence_text(fn_node: ast.AST, expr: ast.AST, depth: int = 4) -> str:
+    """Text of `expr` followed by the texts of everything its names are computed from inside the function: the values
+    assigned to them (all definitions) and the tests of the `if`s that decide which definition applies."""
+    par = {id(c): p for p in ast.walk(fn_node) for c in ast.iter_child_nodes(p)}
+    seen: set[str] = set()
+    out = [norm(expr)]
+    frontier = {x.id for x in ast.walk(expr) if isinstance(x, ast.Name)}
+    for _ in range(depth):
+        nxt: set[str] = set()
+        for name in frontier - seen:
+            seen.add(name)
+            for a in ast.walk(fn_node):
+                tg = a.targets if isinstance(a, ast.Assign) else ([a.target] if isinstance(a, (ast.AnnAssign, ast.AugAssign, ast.NamedExpr)) else [])
+                if not any(isinstance(x, ast.Name) and x.id == name for t in tg for x in ast.walk(t)):
+                    continue
+                if getattr(a, "value", None) is not None:
+                    out.append(norm(a.value))
+                    nxt |= {x.id for x in ast.walk(a.value) if isinstance(x, ast.Name)}
+                y: ast.AST = a
+                while id(y) in par:
+                    y = par[id(y)]
+                    if isinstance(y, (ast.If, ast.While, ast.IfExp)):
+                        out.append(norm(y.test))
+                        nxt |= {x.id for x in ast.walk(y.test) if isinstance(x, ast.Name)}
+        frontier = nxt
+    return " ;; ".join(out)
+
+
+def parse_expr(text: str) -> ast.AST:
+    """The expression a normalised condition text denotes (a Name holding the text when it does not parse)."""
+    try:
+        return ast.parse(text, mode="eval").body
+    except SyntaxError:
+        return ast.Name(id="_unparsed_", ctx=ast.Load())
+
+
+def reachable_tracking_flags(cfg, defs: Defs, target: int, env: dict[str, bool], start: int | None = None, max_atoms: int = 6) -> bool | None:
+    """Like `reachable_under`, but boolean flags are followed along the path: after `flag = True` / `flag = False` (a constant
+    assignment) the atom `flag` has that value until it is assigned again, so `if cond: flag = True ... if flag: return`
+    correlates the two tests."""
+    import itertools
+
+    from .cfg import ENTRY
+
+    ifs = {n: defs.resolve(cfg.stmt[n].test) for n in cfg.nodes(lambda s: isinstance(s, ast.If))}
+    const_assign: dict[int, tuple[str, bool | None]] = {}
+    for n in cfg.nodes(lambda s: isinstance(s, ast.Assign) and len(s.targets) == 1 and isinstance(s.targets[0], ast.Name)):
+        v = cfg.stmt[n].value
+        const_assign[n] = (cfg.stmt[n].targets[0].id, v.value if isinstance(v, ast.Constant) and isinstance(v.value, bool) else None)
+    flag_names = {nm for nm, _v in const_assign.values()}
+    atoms = sorted({a for t in ifs.values() for a in bool_atoms(t)} - set(env) - flag_names)
+    if len(atoms) > max_atoms:
+        return None
+    s0 = ENTRY if start is None else start
+    for vals in itertools.product((True, False), repeat=len(atoms)):
+        base = dict(zip(atoms, vals)) | env
+        seen = set()
+        todo = [(s0, ())]
+        while todo:
+            x, flags = todo.pop()
+            if x == target:
+                return True
+            if (x, flags) in seen:
+                continue
+            seen.add((x, flags))
+            fl = dict(flags)
+            if x in const_assign:
+                nm, v = const_assign[x]
+                if v is None:
+                    fl.pop(nm, None)
+                else:
+                    fl[nm] = v
+            e = base | fl
+            for y in cfg.g.successors(x):
+                br = cfg.g.edges[x, y].get("branch")
+                if br is not None and x in ifs:
+                    v = bool_eval(ifs[x], e)
+                    if v is not None and v != br:
+                        continue
+                todo.append((y, tuple(sorted(fl.items()))))
+    return False
